@@ -580,8 +580,9 @@ def r042(ctx, fi, fu):
             if is_local(scr, step_id) and alts and all(a_.get("k") == "plit" and a_.get("v") == 0 for a_ in alts):
                 return True
             # `let init = if step == 0 { state.init } else { None }; if let Some(v) = init`: the alternative that can be Some is selected by step == 0
-            if peel(scr).get("k") == "local" and all(a_.get("k") == "pvariant" and a_["path"].endswith("Option::Some") for a_ in alts):
-                some_alts = [(cs, x) for cs, x in norm_.value_alternatives(scr) if not (peel(x).get("k") == "def" and (peel(x).get("path") or "").endswith("Option::None"))]
+            raw = c_["scrut"] if c_["k"] == "armpat" else c_["init"]
+            if peel(raw).get("k") in ("local", "if", "match", "blockexpr") and all(a_.get("k") == "pvariant" and a_["path"].endswith("Option::Some") for a_ in alts):
+                some_alts = [(cs, x) for cs, x in norm_.value_alternatives(raw) if not (peel(x).get("k") == "def" and (peel(x).get("path") or "").endswith("Option::None"))]
                 return bool(some_alts) and all(any(says_step0(resolve(c2) if c2.get("k") not in ("armpat", "letexpr") else c2, p2, depth + 1) for c2, p2 in cs) for cs, _ in some_alts)
             return False
         c_ = resolve(c_)
